@@ -53,6 +53,7 @@ def c17(run):
     funcs = prog.analysed_functions()
     r9_purity.run_r9(run, funcs)
     run.floor('R9', 400)
+    r5_arghandler.check_container_freshness(run)
     # augmented operators: every __iop__ defined in the package delegates to the binary operator
     aug = {'__iadd__': '__add__', '__isub__': '__sub__', '__imul__': '__mul__', '__itruediv__': '__truediv__',
            '__ipow__': '__pow__', '__imatmul__': '__matmul__'}
@@ -197,6 +198,9 @@ def c09(run):
     prog = run.prog
     r7_binary.run_r7(run, helpers=True, dunders=False)
     r8_accessors.run_r8(run)
+    # the multi-valued inverse is the single-valued inverse of every element (per-element route, or the structured inverse written
+    # on the stacked array)
+    r16_tables.check_routes(run, [r for r in r16_tables.ROUTES_C02 if r[0] in ('pose3d:SE3.inv', 'pose2d:SE2.inv', 'pose3d:SO3.inv', 'pose2d:SO2.inv')], rule='R8')
     fs = scope(run, 'C09')
     r2_none.run_r2(run, fs)
     r1_resolve.run_r1(run, fs)
@@ -220,6 +224,7 @@ def c10(run):
     prog = run.prog
     r_list.run_list_rules(run)
     r5_arghandler.check_arghandler(run, prog.func('smuserlist:SMUserList.arghandler'))
+    r5_arghandler.check_container_freshness(run)
     fs = scope(run, 'C10')
     r2_none.run_r2(run, fs)
     r1_resolve.run_r1(run, fs)
@@ -352,6 +357,7 @@ def c16(run):
     r11_symbolic.run_r11(run)
     r11_symbolic.check_getvector_dtype(run)
     r11_symbolic.check_allocations(run)
+    r11_symbolic.check_assumption_free(run)
     ms = r11_symbolic.marked(prog)
     r18_shared.check_shared_structure(run)
     r16_tables.check_det(run)
@@ -614,6 +620,9 @@ def c06(run):
                              alts=('qqmul(qqmul(P0, pure(P1)), conj(P0))[1:4]',))
     r16_tables._dualquat(run)
     r22_dualquat.check_point_route(run)
+    # X.inv() * (X * p) == p: the inverse used by the point laws is the structured inverse, element by element
+    r16_tables.check_routes(run, [r for r in r16_tables.ROUTES_C02 if r[0] in ('pose3d:SE3.inv', 'pose2d:SE2.inv', 'pose3d:SO3.inv', 'pose2d:SO2.inv')], rule='R15')
+    r16_tables.tables_c02_inverse(run) if hasattr(r16_tables, 'tables_c02_inverse') else None
     _scope_rules(run, 'C06')
     run.floor('R16', 18)
     run.explanation = ('Points, routing part only: in SMPose.__mul__ the operands are never rebound to a transformed value; the point is '
@@ -753,10 +762,22 @@ def c20(run):
     r3_ctor.run_r3(run, classes=['SpatialVector', 'SpatialVelocity', 'SpatialAcceleration', 'SpatialForce', 'SpatialMomentum', 'SpatialInertia'])
     # multi-valued operands: .A of a spatial-vector operand is a list when it holds several vectors
     prog = run.prog
-    for key, extra in (('spatialvector:SpatialVector.__rmul__', ()), ('spatialvector:SpatialVector.__neg__', ()),
-                       ('spatialvector:SpatialVector.__add__', ('right',)), ('spatialvector:SpatialVector.__sub__', ('right',)),
-                       ('spatialvector:SpatialInertia.__mul__', ('right',)), ('spatialvector:SpatialInertia.__rmul__', ('left',))):
-        r8_accessors.check_accessor(run, prog.func(key), extra_objs=extra)
+    r8_accessors.check_accessor(run, prog.func('spatialvector:SpatialVector.__init__'), extra_objs=('value',), skip_self=True)
+    nsv = 0
+    for f in prog.analysed_functions():
+        # every operator method defined by a class of the spatial-vector module (overrides in subclasses included): the
+        # other operand is a list-capable object too
+        if f.module.short == 'spatialvector' and f.cls is not None and f.parent is None and f.name in r8_accessors.OPERATOR_DUNDERS:
+            nsv += 1
+            # a SpatialInertia has no multi-valued constructor form (mass/centre/inertia or one 6x6 matrix): its own value is
+            # single, only the vector operand can hold several values
+            single = f.cls.name == 'SpatialInertia'
+            extra = tuple(p for p in f.params if p != f.selfname)
+            if single and f.name in ('__add__',):
+                extra = ()
+            r8_accessors.check_accessor(run, f, extra_objs=extra, skip_self=single)
+    if nsv < 8:
+        run.error('C20: only %d operator methods found in spatialvector.py (expected >= 8)' % nsv)
     _scope_rules(run, 'C20')
     run.floor('R16', 14)
     run.explanation = ('Spatial vectors, table and guard part: + and - have a same-class guard and an equal-length guard that dominate '
